@@ -133,7 +133,7 @@ def run(ctx):
         name, vals = c["name"], c["vals"]
         rec = {"name": name, "vals": vals, "err": "", "n": 0, "bits": [0], "dec": {k: -1 for k in vals}, "bits2": [0]}
         try:
-            o = ad.build(name, vals)
+            o = ad.build(name, vals, plain=len(cases) % 3 == 2)      # one case in three gives enumerations as plain integers
             b = o.as_bits()
             rec["n"], rec["bits"] = len(b), pack(b)
             p = ad.parse(name, b.copy())
